@@ -159,4 +159,4 @@ def run(ctx):
     seeds = [S.expand_words(ctx.seed * 1000 + s + 4096 + 100 * ctx.shard)[0] for s in range(ctx.n(3, 8))]
     cases = ({'name': n, 'shape': sh, 'seed': sd} for sd in seeds for n in names for sh in TEMPLATE_SHAPES)
     ctx.run_enum('template', cases, prop_template, exhaustive_label='every decodable name x 24 window shapes')
-    ctx.run_given('scenario', scenario_strategy(), prop_scenario, ctx.n(1200, 5000))
+    ctx.run_given('scenario', scenario_strategy(), prop_scenario, ctx.n(1200, 12000))
